@@ -22,7 +22,7 @@ from ..common import BASE_TRUST, REPO, clist, cnat
 IMPORTS = "From FV Require Import Base.Str Shared.ScopeMachine C03.Model."
 
 
-class Timeout(Exception):
+class Timeout(BaseException):   # not an Exception: handlers of the implementation must not swallow it
     pass
 
 
